@@ -1,4 +1,4 @@
 #!/bin/sh
 # regenerate the Gen tables from /repo (never from a scratch copy), rebuild MANIFEST.json, commit
 here="$(cd "$(dirname "$0")/.." && pwd)"
-cd "$here" && URAL_REPO=/repo /venv/bin/python harness/translate.py >/dev/null && python3 tools/mkmanifest.py >/dev/null && python3 tools/mkmain.py >/dev/null && git add -A && git commit -qm "$1" && git log --oneline | head -1
+cd "$here" && URAL_REPO=/repo /venv/bin/python harness/translate.py >/dev/null && python3 tools/mkmanifest.py >/dev/null && python3 tools/mkmain.py >/dev/null && python3 tools/mkdesign.py >/dev/null && git add -A && git commit -qm "$1" && git log --oneline | head -1
